@@ -34,8 +34,42 @@ use std::sync::atomic::{AtomicBool, AtomicUsize, Ordering};
 use std::sync::{Arc, Mutex};
 use vcore::Report;
 
+/// Where the retry policy under test is configured. Statement-level settings override the session's default
+/// profile; in every mode the places that must NOT be effective carry a decoy (a recorder around a different policy).
+#[derive(Clone, Copy, Debug, PartialEq, Eq, Hash, PartialOrd, Ord)]
+enum SetAt {
+    /// execution profile handle set on the statement (session default profile = decoy)
+    StmtProfile,
+    /// the session's default execution profile; the statement carries nothing
+    SessionProfile,
+    /// `set_retry_policy` on the statement; the session default profile = decoy
+    StmtPolicyOverSessionProfile,
+    /// `set_retry_policy` on the statement; the statement's own execution profile handle = decoy
+    StmtPolicyOverStmtProfile,
+}
+impl SetAt {
+    const ALL: [SetAt; 4] = [SetAt::StmtProfile, SetAt::SessionProfile, SetAt::StmtPolicyOverSessionProfile, SetAt::StmtPolicyOverStmtProfile];
+    fn name(self) -> &'static str {
+        match self {
+            SetAt::StmtProfile => "statement-profile-handle",
+            SetAt::SessionProfile => "session-default-profile",
+            SetAt::StmtPolicyOverSessionProfile => "statement-policy-over-session-profile",
+            SetAt::StmtPolicyOverStmtProfile => "statement-policy-over-statement-profile",
+        }
+    }
+}
+/// The decoy differs from the policy under test in what it does after the failures of the alphabet.
+fn decoy_of(p: Policy) -> Policy {
+    match p {
+        Policy::Default => Policy::Fallthrough,
+        Policy::Downgrading => Policy::Fallthrough,
+        Policy::Fallthrough => Policy::Default,
+    }
+}
+
 #[derive(Clone, Debug)]
 struct Case {
+    set_at: SetAt,
     api: Api,
     /// page whose fetch is scripted (0 for unpaged calls)
     page: usize,
@@ -46,11 +80,12 @@ struct Case {
 }
 impl Case {
     fn json(&self) -> Value {
-        json!({"api": self.api.name(), "page": self.page, "policy": self.policy.name(), "idempotent": self.idempotent, "consistency": self.cl0.name(),
+        json!({"policy_set_at": self.set_at.name(), "api": self.api.name(), "page": self.page, "policy": self.policy.name(), "idempotent": self.idempotent, "consistency": self.cl0.name(),
                "script": self.script.iter().map(|s| s.name).collect::<Vec<_>>()})
     }
     fn from_json(v: &Value) -> Option<Case> {
         Some(Case {
+            set_at: SetAt::ALL.into_iter().find(|m| Some(m.name()) == v["policy_set_at"].as_str()).unwrap_or(SetAt::StmtProfile),
             api: Api::from_name(v["api"].as_str()?)?,
             page: v["page"].as_u64()? as usize,
             policy: Policy::from_name(v["policy"].as_str()?)?,
@@ -76,6 +111,10 @@ struct World {
     session: Option<(Session, Stmts)>,
     recorders: Vec<Arc<RecordingPolicy>>,
     profiles: Vec<ExecutionProfileHandle>,
+    decoys: Vec<Arc<RecordingPolicy>>,
+    decoy_profiles: Vec<ExecutionProfileHandle>,
+    /// the session's default profile handle (shared with the session: remapped per case)
+    default_handle: ExecutionProfileHandle,
     next_id: i32,
     cases: usize,
 }
@@ -97,12 +136,16 @@ impl World {
             p.script.get(k).map(|s| s.reply(cl))
         });
         let recorders: Vec<Arc<RecordingPolicy>> = Policy::ALL.iter().map(|p| Arc::new(RecordingPolicy::new(*p))).collect();
-        let profiles = recorders.iter().map(|r| ExecutionProfile::builder().retry_policy(r.clone()).request_timeout(None).build().into_handle()).collect();
-        Ok(World { cluster, registry, session: None, recorders, profiles, next_id: 1, cases: 0 })
+        let profile_of = |r: &Arc<RecordingPolicy>| ExecutionProfile::builder().retry_policy(r.clone()).request_timeout(None).build();
+        let profiles = recorders.iter().map(|r| profile_of(r).into_handle()).collect();
+        let decoys: Vec<Arc<RecordingPolicy>> = Policy::ALL.iter().map(|p| Arc::new(RecordingPolicy::new(*p))).collect();
+        let decoy_profiles = decoys.iter().map(|r| profile_of(r).into_handle()).collect();
+        let default_handle = ExecutionProfile::builder().request_timeout(None).build().into_handle();
+        Ok(World { cluster, registry, session: None, recorders, profiles, decoys, decoy_profiles, default_handle, next_id: 1, cases: 0 })
     }
     async fn session(&mut self) -> Result<&(Session, Stmts), String> {
         if self.session.is_none() {
-            let sb = SessionBuilder::new().known_node(self.cluster.contact_point(0)).default_execution_profile_handle(ExecutionProfile::builder().request_timeout(None).build().into_handle());
+            let sb = SessionBuilder::new().known_node(self.cluster.contact_point(0)).default_execution_profile_handle(self.default_handle.clone());
             let s = match tokio::time::timeout(LIVENESS, sb.build()).await {
                 Ok(Ok(s)) => s,
                 Ok(Err(e)) => return Err(format!("session did not come up: {e}")),
@@ -173,10 +216,21 @@ async fn run_case(w: &mut World, case: &Case) -> Result<Obs, String> {
     let from = w.cluster.log_len();
     w.registry.lock().unwrap().insert(id, Plan { page: case.page, script: case.script.clone(), next_attempt: 0 });
     let _ = w.recorders[pi].take();
-    let cfg = CallCfg { api: case.api, id, idempotent: case.idempotent, consistency: Some(cons_of(case.cl0)), profile: Some(w.profiles[pi].clone()) };
+    let di = policy_index(decoy_of(case.policy));
+    let _ = w.decoys[di].take();
+    let profile_with = |r: &Arc<RecordingPolicy>| ExecutionProfile::builder().retry_policy(r.clone()).request_timeout(None).build();
+    let (session_profile, stmt_profile, stmt_policy): (ExecutionProfile, Option<ExecutionProfileHandle>, Option<Arc<dyn scylla::policies::retry::RetryPolicy>>) = match case.set_at {
+        SetAt::StmtProfile => (profile_with(&w.decoys[di]), Some(w.profiles[pi].clone()), None),
+        SetAt::SessionProfile => (profile_with(&w.recorders[pi]), None, None),
+        SetAt::StmtPolicyOverSessionProfile => (profile_with(&w.decoys[di]), None, Some(w.recorders[pi].clone())),
+        SetAt::StmtPolicyOverStmtProfile => (profile_with(&w.decoys[di]), Some(w.decoy_profiles[di].clone()), Some(w.recorders[pi].clone())),
+    };
+    w.default_handle.map_to_another_profile(session_profile);
+    let cfg = CallCfg { api: case.api, id, idempotent: case.idempotent, consistency: Some(cons_of(case.cl0)), profile: stmt_profile, retry_policy: stmt_policy };
     let (session, stmts) = w.session.as_ref().unwrap();
     let out = tokio::time::timeout(LIVENESS, call(session, stmts, &cfg)).await;
     let rec = w.recorders[pi].take();
+    let decoy_rec = w.decoys[di].take();
     w.registry.lock().unwrap().remove(&id);
     let log = w.cluster.log_since(from);
     if case.has_rst() {
@@ -262,6 +316,15 @@ async fn run_case(w: &mut World, case: &Case) -> Result<Obs, String> {
         v!(format!("frames:{pname}:same-node-resends-exceed-bound"), format!("{same_node} re-sends to the node just tried; the policy's fixed bound is {bound}"));
     }
 
+    // ---- the policy that is EFFECTIVE for the statement is the one consulted (statement-level overrides profile)
+    if decoy_rec.sessions != 0 || !decoy_rec.asks.is_empty() {
+        v!(
+            format!("loop:policy-not-effective-for-the-statement-consulted:{}", case.set_at.name()),
+            format!("{} with the {pname} policy configured at {}: the {} policy configured where it must be overridden was asked {} times ({:?}) and so governed the request", case.api.name(), case.set_at.name(), decoy_of(case.policy).name(), decoy_rec.asks.len(), decoy_rec.asks.iter().map(|a| (a.error.clone(), a.decision)).collect::<Vec<_>>()),
+        );
+        // the decisions were taken by the wrong policy: comparing the loop with the effective policy's (empty) record says nothing more
+        done!();
+    }
     // ---- the policy as asked by the loop, judged by the statement
     if rec.sessions != usize::from(!rec.asks.is_empty()) || rec.asks.iter().any(|a| a.session != 0) {
         v!("loop:retry-sessions-per-request".into(), format!("{} retry sessions were created for one request with {} failed attempts", rec.sessions, rec.asks.len()));
@@ -401,10 +464,16 @@ fn variants() -> Vec<(Api, usize)> {
 fn roots(cfg: &Cfg) -> Vec<(Case, usize)> {
     let mut out = Vec::new();
     for (cl, max_len) in &cfg.consistencies {
-        for (api, page) in variants() {
-            for policy in Policy::ALL {
-                for idempotent in [false, true] {
-                    out.push((Case { api, page, policy, idempotent, cl0: *cl, script: vec![] }, *max_len));
+        for set_at in SetAt::ALL {
+            // the non-default consistencies are run with one configuration place (the dimension is independent of them)
+            if *cl != Cl::LocalQuorum && set_at != SetAt::StmtProfile {
+                continue;
+            }
+            for (api, page) in variants() {
+                for policy in Policy::ALL {
+                    for idempotent in [false, true] {
+                        out.push((Case { set_at, api, page, policy, idempotent, cl0: *cl, script: vec![] }, *max_len));
+                    }
                 }
             }
         }
@@ -510,6 +579,7 @@ fn main() {
                                     rr.counters.max("max_frames_per_request", obs.frames as u64);
                                     rr.counters.max("max_nodes_per_request", obs.nodes_used as u64);
                                     rr.counters.add(&format!("api_{}_page{}", case.api.name(), case.page), 1);
+                                    rr.counters.add(&format!("policy_set_at_{}", case.set_at.name()), 1);
                                     if obs.downgraded {
                                         rr.counters.add("requests_resent_at_lower_consistency", 1);
                                     }
@@ -560,7 +630,7 @@ fn main() {
         depth += 1;
         let mut n = next.into_inner().unwrap();
         // deterministic, simplest-first order for the next wave
-        n.sort_by_key(|(c, _)| (c.script.iter().map(|s| s.name).collect::<Vec<_>>(), c.api, c.page, c.policy, c.idempotent, c.cl0));
+        n.sort_by_key(|(c, _)| (c.script.iter().map(|s| s.name).collect::<Vec<_>>(), c.api, c.page, c.policy, c.idempotent, c.cl0, c.set_at));
         level = n;
         if stop.load(Ordering::Relaxed) {
             break;
@@ -575,8 +645,9 @@ fn main() {
     r.note("alphabet", json!(cfg.syms.iter().map(|s| s.name).collect::<Vec<_>>()));
     r.note("initial_consistencies", json!(cfg.consistencies.iter().map(|(c, l)| format!("{} (scripts <= {l})", c.name())).collect::<Vec<_>>()));
     r.set_exhaustive(r.counters.get("cases_skipped_after_first_violation") == 0 && !stop.load(Ordering::Relaxed));
-    r.set_rule("logical requests with at least one injected failure (distinct (api, scripted page, policy, idempotent flag, initial consistency, script) tuples)");
+    r.set_rule("logical requests with at least one injected failure (distinct (place of configuration, api, scripted page, policy, idempotent flag, initial consistency, script) tuples)");
     r.assume("script tree: a script is extended exactly when the driver sent the attempt that would receive the next outcome; a script whose prefix ended the request is the same run as that prefix");
+    r.assume("the retry policy under test is configured at one of {statement's profile handle, session default profile, statement-level set_retry_policy over the session profile, the same over the statement's profile handle}; every place that must be overridden carries a decoy recorder around a different policy, which must never be asked");
     r.assume("the built-in policies are reached through a forwarding recorder (a RetryPolicy that delegates every question to the built-in session); the frame-level clauses do not use the recorder");
     r.assume("plan length 3: three mock nodes with one pooled connection each, all connected when a request starts (a connection reset is followed by a fresh session); client-side stream-id exhaustion cannot be produced end-to-end");
     r.assume("trusts cqlref::retry (self-tested at start-up)");
